@@ -59,7 +59,19 @@ def main():
         try:
             r = impl(c, state) if setup else impl(c)
         except CaseTimeout:
-            r = Err("Timeout")
+            # wall-clock alarm: on a machine busy with other work a harmless case can overrun it.  The case is run once more
+            # with three times the limit; only if it overruns that too it counts as not ending (a loop that does not end still does not).
+            signal.alarm(3 * limit)
+            try:
+                r = impl(c, state) if setup else impl(c)
+            except CaseTimeout:
+                r = Err("Timeout")
+            except RecursionError as e:
+                r = Err("RecursionError", str(e))
+            except BaseException as e:  # noqa: BLE001
+                if isinstance(e, (KeyboardInterrupt, SystemExit)):
+                    raise
+                r = Err(type(e).__name__, "".join(traceback.format_exception_only(type(e), e))[-300:])
         except RecursionError as e:
             r = Err("RecursionError", str(e))
         except BaseException as e:  # noqa
